@@ -47,6 +47,8 @@ fixed('F16', ['C20'], 'A10d', 'adsg_core.graph.sup.dsg:SupSelChoiceOptionMapping
       "resolve() raised AttributeError ('NoneType' has no attribute 'str_context') for every source architecture in which a conditionally active, mapped source choice is active - the mandatory None entry of the mapping was dereferenced", 'witness/w16', 'skips the None (inactive) entry')
 fixed('F17', ['C07'], 'A5f', 'adsg_core.optimization.assign_enc.encoding:EagerEncoder.get_design_variables:A5f:every-pattern-merged',
       'a connection variable not flagged conditionally active was inactive in a valid design (S0(0..2) -> [T0(0..2, conditional), T1(1)], Direct Matrix eager encoder: x=[0,0] reports CC_0 inactive, flag False): existence patterns needing no variable were skipped when merging the flags', 'witness/w17', 'flag their variables conditionally active')
+fixed('F18', ['C11', 'C01'], 'A10g', 'adsg_core.optimization.assign_enc.matrix:AggregateAssignmentMatrixGenerator._get_n_conn_override._make_n_conn_override:A10g:max(n_conns) over override_map.values()',
+      'ValueError (max() of an empty list) while building the GraphProcessor of a feasible design space: grouping connector G = {M1 (1..inf), M2 ([1], conditional)} -> T; in the scenario with M2 the group needs 2 connections, the matrix allows 1, the degree list of the pattern is empty', 'witness/w18', 'is infeasible instead of crashing')
 known('F7', ['C07', 'C03'], 'A6', 'adsg_core.optimization.assign_enc.encoding:EagerEncoder.get_matrix:A6:raw-vector-returned:return (list(vector) + extra_vector, matrix[i_mat, :, :])',
       'on a direct hit the eager encoder returns the input vector instead of the stored -1-marked one, so conditionally inactive variables are reported active (30 vectors in witness/w07)',
       'witness/w07', 'returning the stored vector changes what is_valid_vector(get_matrix(x)[0]) answers and breaks 6 existing tests; not a small repair')
